@@ -312,10 +312,16 @@ Proof.
   - (* apply *)
     intros vf va r l H. simpl in H. destruct vf; try (inv H; apply good_nil_err).
     + destruct arity as [|[|n]].
-      * destruct va; inv H; try apply good_nil_err.
+      * destruct va; inv H;
+          try (apply good_intro; [simpl; intros z Hz; destruct Hz
+                                 | intros ef Hef; simpl in Hef; destruct Hef as [Hef|[]]; subst; reflexivity
+                                 | intros; discriminate]).
         apply good_intro; [simpl; rewrite app_nil_r; isolve | | intros v Hv; inv Hv; simpl; isolve].
         intros e He; simpl in He; destruct He as [He|[]]; subst; reflexivity.
-      * destruct va; inv H; try apply good_nil_err.
+      * destruct va; inv H;
+          try (apply good_intro; [simpl; intros z Hz; destruct Hz
+                                 | intros ef Hef; simpl in Hef; destruct Hef as [Hef|[]]; subst; reflexivity
+                                 | intros; discriminate]).
         apply good_intro; [simpl; rewrite app_nil_r; isolve | | intros v Hv; inv Hv; simpl; isolve].
         intros e He; simpl in He; destruct He as [He|[]]; subst; reflexivity.
       * inv H. apply good_nil_val. simpl. isolve.
